@@ -1,7 +1,7 @@
 (* Extraction of the case interpreter.  ExtrOcamlBasic only: bool, option, unit, list,
    prod, sumbool, sumor map to their OCaml counterparts, andb/orb are inlined; N, Z,
    positive, nat and byte stay the extracted Coq datatypes. *)
-From Jen Require Import Model.Exec.
+From Jen Require Import Model.Top.
 From Coq Require Import ExtrOcamlBasic.
 From Coq.Strings Require Import Byte.
 Extraction Language OCaml.
